@@ -310,6 +310,24 @@ theorem variant_irrelevant (i : Input) (v : String) (b : Bool) (oo : List String
     run { i with variant := v, bothSupplied := b, otherOverrides := oo, policyForm := pf, errorKind := ek, callerCtx := cc, methods := ms, servers := sv, validatorImpl := vi } = run i := by
   simp [run, Input.action]
 
+/-- **nil_entries_read_as_unknown**: which of the entries the vector reports as `unknown` were in fact NIL pointers
+(and which server results were) is not an input of the decision: a nil entry IS an unknown status. The translated
+`revocationFinalResult` agrees for every vector (`Tie.source_revocationFinalResult_refines_model`, `Tie.resOf`). -/
+theorem nil_entries_read_as_unknown (i : Input) (ne : List Nat) (sv : List (List String)) :
+    run { i with nilEntries := ne, servers := sv } = run i := by
+  simp [run, Input.action]
+
+theorem nil_entries_read_as_unknown_holds (i : Input) (ne : List Nat) (sv : List (List String)) (o : Obs) :
+    Holds { i with nilEntries := ne, servers := sv } o = Holds i o := by
+  simp [Holds, clauses, Input.action]
+
+/-- non-vacuity: a chain whose root got a nil entry does not pass, and an observation that lets it pass (or that
+accepts it under an enforcing statement) fails `Holds` -/
+example : (run { sample with vec := [.ok, .unknown], chainLen := 2, nilEntries := [1], servers := [["nil"], []] }).outcome = .unknown := by decide
+example : Holds { sample with vec := [.ok, .unknown], chainLen := 2, nilEntries := [1], servers := [["nil"], []] }
+    { outcome := .pass, named := none, accepted := true, resultAction := some .enforce, calls := 1, chainLen := some 2,
+      signingTime := some false, usedIface := some .validator } = false := by decide
+
 /-- **history_irrelevant** (seeded change C05-19): a verifier keeps no state between calls. Which entry point
 the observed call goes through, which OTHER statements the same verifier holds (in the same document under
 another scope, or in the other document - where a statement may carry the SAME name and say something else
@@ -410,51 +428,97 @@ theorem loopDown_scan_all (rs : List R) :
   have := loopDown_scan rs rs.length (Nat.le_refl _)
   simpa [scan] using this
 
+/-- how the model reads one entry of the result vector: a nil entry (a certificate the validator
+gave no result for) is a certificate of unknown status -/
+def resOf : Option CertRevocationResult → R
+  | none => .unknown
+  | some c => toR c.Result
+
+@[simp] theorem resOf_none : resOf none = .unknown := rfl
+@[simp] theorem resOf_some (c : CertRevocationResult) : resOf (some c) = toR c.Result := rfl
+
 /-- TIE (translated source): the Lean translation of `verifier.revocationFinalResult`, regenerated
 from verifier/verifier.go on every run (`Generated/SrcC05.lean`), computes for EVERY result vector
-and chain exactly what the hand-written model `revocationFinalFor` computes (the named subject is
-the subject of the certificate at the model's index). A change of the Go function that alters its
-result breaks this theorem, whatever inputs the correspondence run happens to sample. -/
-theorem source_revocationFinalResult_refines_model (crs : List CertRevocationResult) (chain : List x509.Certificate) :
+- entries may be nil - and chain exactly what the hand-written model `revocationFinalFor` computes
+(the named subject is the subject of the certificate at the model's index; a nil entry is read as
+`unknown`, `resOf`). A change of the Go function that alters its result breaks this theorem,
+whatever inputs the correspondence run happens to sample. -/
+theorem source_revocationFinalResult_refines_model (crs : List (Option CertRevocationResult)) (chain : List x509.Certificate) :
     verifier.revocationFinalResult crs chain =
-      ((ofFinal (revocationFinalFor chain.length (crs.map (fun c => toR c.Result))).1),
-       subj chain (revocationFinalFor chain.length (crs.map (fun c => toR c.Result))).2) := by
+      ((ofFinal (revocationFinalFor chain.length (crs.map resOf)).1),
+       subj chain (revocationFinalFor chain.length (crs.map resOf)).2) := by
   unfold verifier.revocationFinalResult
   simp only [Id.run]
   by_cases hlen : crs.length = chain.length
   · have h1 : (GoLite.len crs != GoLite.len chain) = false := by simp [GoLite.len, hlen]
     simp only [h1]
     rw [GoLite.forIn_downTo_of_yields _ (by intro k s; (repeat' split) <;> exact ⟨_, rfl⟩)]
-    rw [GoLite.loopDown_sim _ (absS chain) (fun k acc => loopStep acc k (((crs.map (fun c => toR c.Result)))[k]?.getD .ok))
+    rw [GoLite.loopDown_sim _ (absS chain) (fun k acc => loopStep acc k ((crs.map resOf)[k]?.getD .ok))
           crs.length _ _ {} (by simp [absS, ofFinal, subj])]
-    · have hs := loopDown_scan_all (crs.map (fun c => toR c.Result))
+    · have hs := loopDown_scan_all (crs.map resOf)
       simp only [List.length_map] at hs
       rw [hs]
       simp only [revocationFinalFor, aggregate, List.length_map, ← hlen]
-      generalize scan (List.map (fun c => toR c.Result) crs) 0 = acc
+      generalize scan (List.map resOf crs) 0 = acc
       have hk' : (((acc.numOK : Nat) : Int) = ((crs.length : Nat) : Int)) = (acc.numOK = crs.length) := by
         simp [Int.natCast_inj]
       cases hr : acc.revokedFound <;> by_cases hk : acc.numOK = crs.length <;>
         simp [absS, hr, hk, hk', ofFinal, GoLite.len] <;>
         (try (repeat' split)) <;> first | rfl | (exfalso; omega)
     · intro k hk acc
-      have e : (List.map (fun c => toR c.Result) crs)[k]?.getD R.ok = toR (GoLite.idx crs (k : Int)).Result := by
+      have e : (List.map resOf crs)[k]?.getD R.ok = resOf (GoLite.idx crs (k : Int)) := by
         simp [GoLite.idx, hk]
       rw [e]
       simp only [GoLite.stepOf]
-      cases h : (GoLite.idx crs (k : Int)).Result <;>
+      cases hc : GoLite.idx crs (k : Int) with
+      | none =>
         simp [absS, loopStep, toR, R.good, R.toFinal, ofFinal, subj, GoLite.idx_natCast, pkix.Name.String, ForInStep.value, Id.run_pure]
+      | some c =>
+        cases h : c.Result <;>
+          simp [absS, loopStep, toR, R.good, R.toFinal, ofFinal, subj, GoLite.idx_natCast, GoLite.deref, h, pkix.Name.String, ForInStep.value, Id.run_pure]
   · have h1 : (GoLite.len crs != GoLite.len chain) = true := by
       simp only [GoLite.len, bne_iff_ne, ne_eq, Int.natCast_inj]; exact hlen
     have h2 : (crs.length != chain.length) = true := by simp [hlen]
     simp [h1, revocationFinalFor, h2, ofFinal, subj]
     rfl
 
+/-- the vectors without nil entries: the tie in its earlier form -/
+theorem source_revocationFinalResult_refines_model_some (crs : List CertRevocationResult) (chain : List x509.Certificate) :
+    verifier.revocationFinalResult (crs.map some) chain =
+      ((ofFinal (revocationFinalFor chain.length (crs.map (fun c => toR c.Result))).1),
+       subj chain (revocationFinalFor chain.length (crs.map (fun c => toR c.Result))).2) := by
+  rw [source_revocationFinalResult_refines_model, List.map_map]
+  rfl
+
+/-- a nil entry behaves exactly like an entry whose `Result` is `ResultUnknown`, whatever else that entry says -/
+theorem nil_entry_is_unknown (pre post : List (Option CertRevocationResult)) (c : CertRevocationResult)
+    (hc : c.Result = .ResultUnknown) (chain : List x509.Certificate) :
+    verifier.revocationFinalResult (pre ++ none :: post) chain =
+      verifier.revocationFinalResult (pre ++ some c :: post) chain := by
+  simp [source_revocationFinalResult_refines_model, resOf, hc, toR]
+
+/-- server results - nil or not - do not matter: only the `Result` of every entry is read -/
+theorem server_results_irrelevant (crs crs' : List (Option CertRevocationResult)) (chain : List x509.Certificate)
+    (h : crs.map (fun c => c.map (·.Result)) = crs'.map (fun c => c.map (·.Result))) :
+    verifier.revocationFinalResult crs chain = verifier.revocationFinalResult crs' chain := by
+  have e : ∀ xs : List (Option CertRevocationResult),
+      xs.map resOf = (xs.map (fun c => c.map (·.Result))).map (fun r => match r with | none => R.unknown | some r => toR r) := by
+    intro xs; rw [List.map_map]; apply List.map_congr_left; intro c _; cases c <;> rfl
+  simp only [source_revocationFinalResult_refines_model, e, h]
+
 /-- non-vacuity: the translated function on a concrete chain -/
 example : verifier.revocationFinalResult
-    [{ Result := .ResultUnknown, ServerResults := [], RevocationMethod := .RevocationMethodUnknown },
-     { Result := .ResultRevoked, ServerResults := [], RevocationMethod := .RevocationMethodCRL }]
+    [some { Result := .ResultUnknown, ServerResults := [], RevocationMethod := .RevocationMethodUnknown },
+     some { Result := .ResultRevoked, ServerResults := [], RevocationMethod := .RevocationMethodCRL }]
     [{ Subject := ⟨"leaf"⟩ }, { Subject := ⟨"root"⟩ }] = (.ResultRevoked, "root") := by decide
+/-- a nil entry fails closed and names its certificate; a result with a nil server result is read as usual -/
+example : verifier.revocationFinalResult
+    [some { Result := .ResultOK, ServerResults := [none], RevocationMethod := .RevocationMethodOCSP }, none]
+    [{ Subject := ⟨"leaf"⟩ }, { Subject := ⟨"root"⟩ }] = (.ResultUnknown, "root") := by decide
+example : verifier.revocationFinalResult
+    [some { Result := .ResultOK, ServerResults := [none], RevocationMethod := .RevocationMethodOCSP },
+     some { Result := .ResultNonRevokable, ServerResults := [], RevocationMethod := .RevocationMethodUnknown }]
+    [{ Subject := ⟨"leaf"⟩ }, { Subject := ⟨"root"⟩ }] = (.ResultOK, "") := by decide
 
 /-! #### the action of the revocation type -/
 section Levels
